@@ -31,17 +31,20 @@ LEAN_PROPS = "PpciVerif/Props/C40.lean"
 LEAN_TARGETS = ["PpciVerif.Props.C40", "Drivers.C40"]
 LEVEL = "proof"
 LEVEL_TEXT = (
-    "PARTIAL. Lean theorems about a hand model of X86_64Arch (System V branch): for EVERY signature of scalar parameters (any length, "
-    "i8..u64/ptr/f32/f64) determine_arg_locations returns exactly the psABI location of each argument (INTEGER in rdi,rsi,rdx,rcx,r8,r9, SSE in "
-    "xmm0-7, the rest in consecutive 8-byte stack slots from rbp+16 in order; Spec.SysV is a positional definition written from the psABI text) "
-    "and determine_rv_location returns rax/xmm0; for EVERY used-register set and frame size, epilogue . body . prologue restores rsp, rbp and "
-    "every psABI callee-saved register and rsp = 0 (mod 16) in the body given rsp = 8 (mod 16) at entry, locals and save area are disjoint "
-    "(assumption stated in the theorem: the body keeps rsp, writes only registers of used_regs/caller-saved ones and no save slot); for every "
-    "signature whose stack arguments are 32/64-bit integers gen_call keeps rsp = 0 (mod 16) at the call, puts every argument (register AND stack) "
-    "where the psABI callee looks for it, and restores rsp; gen_function_enter reads every parameter from its psABI location. The register lists of "
-    "the live arch are dumped on every run and re-checked by decide against the psABI lists. The model is tied to arch.py by a differential run; the "
-    "REAL instruction lists are additionally executed on the Lean stack machine. Thorough tier searches for failing inputs with real gcc<->ppci "
-    "interop through linked ELF objects. Not proved: machine semantics of the instructions, register allocation, ELF/relocations, struct/blob "
+    "PARTIAL. Lean theorems about a hand model of X86_64Arch (System V branch). Proved for ALL inputs: (1) for every signature of scalar "
+    "parameters (any length, i8..u64/ptr/f32/f64) determine_arg_locations returns exactly the psABI location of each argument (INTEGER in "
+    "rdi,rsi,rdx,rcx,r8,r9, SSE in xmm0-7, the rest in consecutive 8-byte stack slots from rbp+16; Spec.SysV is a positional definition written from "
+    "the psABI text) and determine_rv_location returns rax/xmm0; (2) for every used-register set and frame size, epilogue . body . prologue "
+    "restores rsp, rbp and every psABI callee-saved register, rsp = 0 (mod 16) in the body given rsp = 8 (mod 16) at entry, and locals lie above the "
+    "register save area - under the assumptions stated in the theorem (the body keeps rsp, writes a callee-saved register only if an alias is in "
+    "used_regs, writes no save slot); (3) for every signature for which gen_call produces code (iff all stack arguments are 32/64-bit integers or "
+    "pointers) the argument area is a multiple of 16, every argument - register and stack - is at its psABI location at the call instruction, rsp is "
+    "restored and the result is read from rax/xmm0; (4) for every signature for which gen_function_enter produces code every parameter is read from "
+    "its psABI location. The register tables of the live arch (argument/return registers, _callee_save, _caller_save, register classes, alias map) "
+    "are dumped on every run and re-checked by decide. The model is tied to arch.py by a differential run, and the REAL prologue/epilogue/call/enter "
+    "instruction lists are executed on the Lean stack machine against the Spec. The thorough tier searches for failing inputs with real gcc<->ppci "
+    "calls through linked ELF objects. The unguarded statement is proved false (stack-passed float/double and 8/16-bit arguments raise "
+    "NotImplementedError: open findings). Not proved: machine semantics of the instructions, register allocation, ELF/relocations, struct/blob "
     "arguments, varargs, wincc."
 )
 LEVEL_NOTE = (
@@ -787,7 +790,7 @@ def interop(ctx):
     from ppci.api import cc
     from ppci.format.elf import write_elf
     rng = ctx.rng
-    nsig = int(os.environ.get("VERIF_C40_INTEROP_SIGS", "70"))
+    nsig = int(os.environ.get("VERIF_C40_INTEROP_SIGS", "120"))
     sigs = ["l" * 7, "l" * 9, "d" * 9, "d" * 12, "f" * 12, "fdfdfdfdfdfd", "iIlLpiIlLp", "bBsSiIlLpfd", "ldldldldldld", "llllllfl",
             "ddddddddlllllll", "pppppppp", "iiiiiiiiiiii", "", "l", "f", "bB", "sS"]
     while len(sigs) < nsig:
@@ -842,7 +845,7 @@ def interop(ctx):
                 tests.append(dict(name=cn, kind="caller", sig=sig,
                                   ppci_src=f"extern {rtype} {gn}({params});\n{rtype} {cn}(void) {{\n  return {gn}({', '.join(pvals)});\n}}\n",
                                   gcc_decl=f"{rtype} {cn}(void);",
-                                  gcc_def=f"{rtype} {gn}({params}) {{ clobber_all(); return {body}; }}\n",
+                                  gcc_def=f"{rtype} {gn}({params}) {{ CHECK_ALIGN(); clobber_all(); return {body}; }}\n",
                                   call=f"{cn}()", expect=f"({rtype})({subst(body)})", rtype=rtype))
     ctx.extra_cov["interop_skipped_known_findings"] = skipped
     tmp = tempfile.mkdtemp(prefix="verif-c40-", dir="/tmp")
@@ -874,7 +877,10 @@ def interop(ctx):
                "extern unsigned long shim_call(void (*f)(void));",
                "static void clobber_all(void) { __asm__ volatile(\"\" ::: \"rax\",\"rcx\",\"rdx\",\"rsi\",\"rdi\",\"r8\",\"r9\",\"r10\",\"r11\","
                + ",".join(f"\"xmm{i}\"" for i in range(16)) + ",\"memory\"); }",
-               "long gnop(long x) { clobber_all(); return x - 1; }"]
+               "static volatile long misaligned;",
+               "/* in a gcc function entered with rsp = 8 (mod 16) the frame address (rbp after push rbp) is a multiple of 16 */",
+               "#define CHECK_ALIGN() do { if ((unsigned long)__builtin_frame_address(0) & 15) misaligned++; } while (0)",
+               "long gnop(long x) { CHECK_ALIGN(); clobber_all(); return x - 1; }"]
         for t in good:
             drv.append(t["gcc_decl"])
             if t["gcc_def"]:
@@ -887,8 +893,9 @@ def interop(ctx):
         for n, t in enumerate(good):
             fmt = {"float": "%a", "double": "%a", "void*": "%p"}.get(t["rtype"], "%ld")
             cast = {"float": "(double)", "double": "", "void*": ""}.get(t["rtype"], "(long)")
-            drv.append(f"  if (only < 0 || only == {n}) {{ {t['rtype']} want = {t['expect']}; m = shim_call(th_{n});"
+            drv.append(f"  if (only < 0 || only == {n}) {{ {t['rtype']} want = {t['expect']}; misaligned = 0; m = shim_call(th_{n});"
                        f" if (m) printf(\"CLOBBER {n} %lu\\n\", m);"
+                       f" if (misaligned) printf(\"MISALIGNED {n} %ld\\n\", misaligned);"
                        f" if (memcmp(&res_{n}, &want, sizeof want)) printf(\"MISMATCH {n} {fmt} {fmt}\\n\", {cast}res_{n}, {cast}want);"
                        f" else printf(\"OK {n}\\n\"); fflush(stdout); }}")
         drv.append("  return 0;\n}")
@@ -929,6 +936,9 @@ def interop(ctx):
                 elif line.startswith("MISMATCH"):
                     ctx.fail(f"interop:{t['kind']}:wrong-value",
                              f"{t['name']} ({t['sig']}): got/expected {line.split()[2:]}", case, output=line)
+                elif line.startswith("MISALIGNED"):
+                    ctx.fail(f"interop:{t['kind']}:stack-misaligned-at-call-into-gcc-code",
+                             f"{t['name']} ({t['sig']}): a gcc-compiled function was entered with rsp != 8 (mod 16)", case, output=line)
                 elif line.startswith("CRASH"):
                     ctx.fail(f"interop:{t['kind']}:crash", f"{t['name']} ({t['sig']}): {line}", case, output=line)
             if not lines:
